@@ -75,6 +75,16 @@ func cmdVC(args []string) {
 				bad++
 			}
 			fmt.Printf("%s %-8s %-7s %5dms %s\n", mark, o.Status, o.Solver, o.Ms, o.Name)
+			if o.Witness != "" {
+				fmt.Printf("     witness: %s confirmed=%v\n", o.Witness, o.WitnessConfirmed)
+				if !o.WitnessConfirmed {
+					i := strings.Index(o.ReplayOut, "\noutput:\n")
+					if i < 0 {
+						i = 0
+					}
+					fmt.Println("     replay:", truncate(o.ReplayOut[i:], 1500))
+				}
+			}
 			if !o.OK() && o.Model != "" {
 				fmt.Println("     " + strings.ReplaceAll(truncate(o.Model, 1500), "\n", "\n     "))
 			}
